@@ -78,6 +78,11 @@ fn main() {
             observe::install_panic_hook();
             let captured = if std::env::var("JL_NOCAPTURE").is_ok() { false } else { observe::capture_start() };
             c.extra.insert("log_capture".into(), json!(captured));
+            // fd-2 capture: C17 only, and not under the sanitizers (their reports must reach the real stderr)
+            if pid == "C17" && captured && matches!(lane.as_str(), "relchk" | "dev" | "release") {
+                let on = observe::errcap_start();
+                c.extra.insert("stderr_capture".into(), json!(on));
+            }
             // bounded termination: 10 s of CPU inside one call (> 30x the slowest legitimate call observed)
             let budget_s: u64 = std::env::var("JL_CPU_BUDGET_S").ok().and_then(|s| s.parse().ok()).unwrap_or(10);
             if let Some(p) = &out {
@@ -85,6 +90,7 @@ fn main() {
             }
             let t0 = std::time::Instant::now();
             let known = run_property(&mut c);
+            observe::errcap_stop();
             observe::capture_stop();
             if !known {
                 eprintln!("unknown property {}", pid);
@@ -140,6 +146,9 @@ fn replay(rec: &Value) -> i32 {
     let sig = rec["sig"].as_str().unwrap_or("");
     observe::install_panic_hook();
     observe::capture_start();
+    if pid == "C17" {
+        observe::errcap_start();
+    }
     let mut c = ctx::Ctx::new(pid, rec["tier"].as_str().unwrap_or("quick"), rec["seed"].as_u64().unwrap_or(0), rec["shard"].as_u64().unwrap_or(0), rec["nshards"].as_u64().unwrap_or(1), "replay");
     let direct = rec.get("rule").is_some() && !rec["rule"].is_null() && rec["direct"].as_bool().unwrap_or(true);
     if direct {
@@ -150,6 +159,7 @@ fn replay(rec: &Value) -> i32 {
         c.violations.clear();
         run_property(&mut c);
     }
+    observe::errcap_stop();
     observe::capture_stop();
     let hit: Vec<&ctx::Violation> = c.violations.iter().filter(|v| direct_hit || sig.is_empty() || v.sig == sig).collect();
     if hit.is_empty() {
